@@ -74,6 +74,21 @@ Theorem C14_no_old_lock_layouts : forall st0 sp limit s e fuel ys,
 Proof. exact gc_layouts. Qed.
 Print Assumptions C14_no_old_lock_layouts.
 
+(* a pass that STOPS after any number of iterations (an RPC answered with an error, a cancelled context, another worker's
+   error) is harmless: every key is still untouched or resolved by its transaction's outcome, no outcome changed; and a
+   later complete pass started from what it left behind gives the full guarantee w.r.t. the ORIGINAL store *)
+Theorem C14_failed_pass_harmless : forall view st0 sp limit s e n os1 st1 key1 fuel os2 st' tr,
+  faithful_view view -> wf_store st0 -> (0 < limit)%nat -> Forall (oracle_ok st0 sp) os1 -> Forall (oracle_ok st0 sp) os2 ->
+  gc_steps n sp limit e os1 st0 s = Some (st1, key1) ->
+  (forall r1, In r1 st1 -> exists r0, In r0 st0 /\ k_key r0 = k_key r1 /\ (r1 = r0 \/ r1 = resolve_by_outcome st0 sp r0)) /\
+  (forall p t, (forall r l, In r st0 -> k_lock r = Some l -> l_start l = t -> is_pess l = false -> l_primary l = p) ->
+       committed_at st1 p t = committed_at st0 p t) /\
+  (gc_resolve_range_v view fuel sp limit s e os2 st1 = GcOk st' tr ->
+     (forall r, In r st' -> in_range s e (k_key r) = true -> old_lock sp r = false) /\
+     (s = [] -> e = [] -> st' = resolve_all st0 sp)).
+Proof. exact failed_pass_harmless. Qed.
+Print Assumptions C14_failed_pass_harmless.
+
 (* termination within a stated fuel: if every region end ever observed lies in a finite set S (or is
    unbounded), then  #{x in S | x > s} + #old locks + #"locks no longer in one region" observations  bounds the
    number of iterations: the loop never runs out of fuel above that (it ends, or the observations end) *)
@@ -272,6 +287,10 @@ Example ex_layouts : exists tr os,
   gc_resolve_range_l 20 50 2 [] [] (mkLay [ex_k 4] [[ex_k 2; ex_k 4]] :: repeat (mkLay [ex_k 2; ex_k 4] []) 8) ex_store
   = (GcOk (resolve_all ex_store 50) tr, os) /\ option_map o_res (hd_error os) = Some None.
 Proof. eexists. eexists. vm_compute. split; reflexivity. Qed.
+Example ex_failed_pass :   (* stop after 2 iterations, then a complete retry: same result as one complete pass *)
+  exists st1 k1 tr, gc_steps 2 50 1 [] ex_os ex_store [] = Some (st1, k1) /\ st1 <> ex_store /\ st1 <> resolve_all ex_store 50 /\
+    gc_resolve_range 20 50 1 [] [] (repeat (mkOracle ([], []) [] [] (Some ([], []))) 10) st1 = GcOk (resolve_all ex_store 50) tr.
+Proof. eexists. eexists. eexists. vm_compute. repeat split; try reflexivity; discriminate. Qed.
 Example ex_gc_fuel : (above [ex_k 4; ex_k 6] [] + count_old 50 ex_store + rescans ex_os < 20)%nat /\ Forall (ends_in [ex_k 4; ex_k 6]) ex_os.
 Proof.
   split; [vm_compute; lia|]. unfold ex_os, ends_in. repeat (constructor; [cbn; tauto|]). constructor.
